@@ -309,14 +309,13 @@ def r6_diff(ctx, retsets):
     ctx.check(good_rm, "C10.R6", "diff:removes-from-old", rm[0].loc() if rm else "%s:%d" % (fn.relfile, fn.line), "entries of the new table are taken out of the old one", key="C10.R6:diff:remove")
     for c in ns:
         pol = vf.expr(fn, c.args[2])
-        guards = [(vf.expr(fn, g), t) for g, t, br in es.guards_of(fn, c)]
-        own = any(g[0] == "icmp" and ((g[1] == "eq" and t) or (g[1] == "ne" and not t)) and SOCK in (g[2], g[3]) and
-                  any(x[0] == "load" and vf.last_field(x[1]) == "key_entry.socket" for x in (g[2], g[3])) for g, t in guards)
+        G = es.Guards(fn, c)
+        own = bool(G.find_eq(lambda x: x[0] == "load" and vf.last_field(x[1]) == "key_entry.socket", lambda y: y == SOCK))
         tab = vf.expr(fn, c.args[0]) == NEW
         if pol == ("c", 1):
-            cond = any(g[0] == "icmp" and g[2][0] == "call" and g[2][1] == "spki_table_remove_entry" and
-                       ((g[1] == "eq" and t and g[3] == ("c", pdb.enum_value("SPKI_RECORD_NOT_FOUND"))) or
-                        (g[1] == "ne" and t and g[3] == ("c", pdb.enum_value("SPKI_SUCCESS")))) for g, t in guards)
+            is_rm = lambda x: x[0] == "call" and x[1] == "spki_table_remove_entry"
+            cond = bool(G.find_eq(is_rm, lambda y: y == ("c", pdb.enum_value("SPKI_RECORD_NOT_FOUND")))) or \
+                bool(G.find_ne(is_rm, lambda y: y == ("c", pdb.enum_value("SPKI_SUCCESS"))))
             ctx.check(own and tab and cond, "C10.R6", "diff:added", c.loc(), "'added' for own-socket entries of the new table that the old table did not have (own=%s, new table's callback=%s, not-in-old=%s)" % (own, tab, cond),
                       key="C10.R6:diff:added")
         elif pol == ("c", 0):
